@@ -13,6 +13,8 @@ pub enum Ans {
 	Err(String),
 	Skip(String),
 	BadOp(String),
+	/// the executor caught a panic of the implementation itself and names the site (printed as `panic <site>`)
+	Panic(String),
 }
 
 impl Ans {
@@ -62,6 +64,7 @@ pub fn answer_line(exec: &dyn Fn(&str, &[Sexp]) -> Ans, line: &str) -> String {
 		Ok(Ans::Ok(s)) => format!("ok {s}"),
 		Ok(Ans::Err(c)) => format!("err {c}"),
 		Ok(Ans::Skip(w)) => format!("skip {w}"),
+		Ok(Ans::Panic(site)) => format!("panic {site}"),
 		Ok(Ans::BadOp(why)) => { eprintln!("bad-op: {why}: {}", &line[..line.len().min(200)]); "bad-op".into() }
 		Err(_) => format!("panic {}", LAST_PANIC.with(|l| l.borrow().clone())),
 	}
